@@ -296,6 +296,14 @@ func seqTransition(c *Ctx, n *types.Named, next, roc *ssa.Function) {
 				if other == ctr.st.Val {
 					okG = (cmp.Op == token.EQL && gs[0].Truth) || (cmp.Op == token.NEQ && !gs[0].Truth)
 				}
+				// equivalently: the value *before* the increment is the last one before the wrap (65535)
+				for _, pair := range [][2]ssa.Value{{x, y}, {y, x}} {
+					if k, isC := core.ConstInt(pair[1]); isC && (k == 65535 || k == -1) {
+						if ld, ok := pair[0].(*ssa.UnOp); ok && core.IsEntryLoadOf(ld, recv, ctr.path) {
+							okG = (cmp.Op == token.EQL && gs[0].Truth) || (cmp.Op == token.NEQ && !gs[0].Truth)
+						}
+					}
+				}
 				detail = "condition " + core.OpString(cmp) + fmt.Sprintf(" taken=%v", gs[0].Truth)
 			}
 		}
@@ -322,8 +330,7 @@ func seqTransition(c *Ctx, n *types.Named, next, roc *ssa.Function) {
 				if !ok || nn.Obj() != n.Obj() {
 					continue
 				}
-				ctors++
-				checkCtor(c, fn, a, ctr.path, rocPath)
+				ctors += checkCtor(c, fn, a, ctr.path, rocPath)
 			}
 		}
 	}
@@ -339,7 +346,13 @@ func sortedFuncNames(p *core.Program) []string {
 	return names
 }
 
-func checkCtor(c *Ctx, fn *ssa.Function, a *ssa.Alloc, ctrPath, rocPath string) {
+func checkCtor(c *Ctx, fn *ssa.Function, a *ssa.Alloc, ctrPath, rocPath string) int {
+	n := 1
+	checkCtor1(c, fn, a, ctrPath, rocPath, &n)
+	return n
+}
+
+func checkCtor1(c *Ctx, fn *ssa.Function, a *ssa.Alloc, ctrPath, rocPath string, count *int) {
 	p, r := c.Prog, c.R
 	fname := core.FuncName(fn)
 	var ctrStore *ssa.Store
@@ -368,6 +381,41 @@ func checkCtor(c *Ctx, fn *ssa.Function, a *ssa.Alloc, ctrPath, rocPath string) 
 		return
 	}
 	v := ctrStore.Val
+	// an unexported helper that stores its parameter unchanged (newSequencer(last)) is not a constructor of its
+	// own: each of its callers is one, with the argument it passes as the initial counter
+	if pa, isParam := v.(*ssa.Parameter); isParam && fn.Object() != nil && !fn.Object().Exported() {
+		idx := -1
+		for i, q := range fn.Params {
+			if q == pa {
+				idx = i
+			}
+		}
+		callers := 0
+		for _, name := range sortedFuncNames(p) {
+			g := p.Funcs[name]
+			for _, b := range g.Blocks {
+				for _, in := range b.Instrs {
+					call, ok := in.(*ssa.Call)
+					if !ok || call.Call.StaticCallee() != fn || idx >= len(call.Call.Args) {
+						continue
+					}
+					callers++
+					checkCtorValue(c, g, call.Call.Args[idx], call.Pos())
+				}
+			}
+		}
+		if callers > 0 {
+			*count = callers
+			return
+		}
+	}
+	checkCtorValue(c, fn, v, ctrStore.Pos())
+}
+
+// checkCtorValue: v is the initial counter value set up by constructor fn.
+func checkCtorValue(c *Ctx, fn *ssa.Function, v ssa.Value, pos token.Pos) {
+	p, r := c.Prog, c.R
+	fname := core.FuncName(fn)
 	if len(fn.Params) == 1 {
 		// fixed sequencer: first value handed out (init+1) must be the parameter
 		bin, ok := v.(*ssa.BinOp)
@@ -382,12 +430,12 @@ func checkCtor(c *Ctx, fn *ssa.Function, a *ssa.Alloc, ctrPath, rocPath string) 
 				good = true
 			}
 		}
-		r.Add("SEQ.init", fname, "fixed start: counter = start - 1", p.Position(ctrStore.Pos()), good, "stored "+core.OpString(v))
+		r.Add("SEQ.init", fname, "fixed start: counter = start - 1", p.Position(pos), good, "stored "+core.OpString(v))
 		return
 	}
 	// random sequencer: first value handed out = init + 1 must be < 2^15
 	lo, hi, ok := core.Interval(v, 0)
 	good := ok && lo >= 0 && hi+1 < 1<<15
-	r.Add("SEQ.init", fname, "random start: first value < 2^15", p.Position(ctrStore.Pos()), good,
+	r.Add("SEQ.init", fname, "random start: first value < 2^15", p.Position(pos), good,
 		fmt.Sprintf("initial counter in [%d,%d], first value handed out <= %d", lo, hi, hi+1))
 }
